@@ -631,6 +631,20 @@ def make_tree(dendropy, rng, ns, shape=None, rich=True, max_leaves=8):
     if rng.random() < 0.15:
         tree.fav_node = rng.choice(nodes)
         tree.fav_taxon = rng.choice(members)
+    # attribute-bound annotations with the documented `owner_instance` argument whose owner is ANOTHER part of the structure, which
+    # the copy traversal reaches EARLIER or LATER than the holder (a node / edge bound to a sister's, an ancestor's or a descendant's
+    # label / edge length / edge label), the tree bound to a node, and an owner the namespace-scoped routes share (the node's taxon)
+    if len(nodes) >= 2 and rng.random() < 0.4:
+        for k in range(rng.randint(1, 3)):
+            a, b = rng.sample(nodes, 2)
+            holder = rng.choice([a, a, a.edge, tree])
+            owner, attr = rng.choice([(b, "label"), (b.edge, "length"), (b.edge, "length"), (b.edge, "label"), (b, "age")])
+            holder.annotations.add_bound_attribute(attr, annotation_name="x%d_%s" % (k, attr), owner_instance=owner)
+    if rng.random() < 0.08:
+        tx = [nd for nd in nodes if nd.taxon is not None]
+        if tx:
+            nd = rng.choice(tx)
+            nd.annotations.add_bound_attribute("label", annotation_name="taxon_label", owner_instance=nd.taxon)
     return tree
 
 
@@ -639,8 +653,15 @@ def make_treelist(dendropy, rng, ns, rich=True):
     for _ in range(rng.randint(0, 3)):
         tl.append(make_tree(dendropy, rng, ns, rich=rich, max_leaves=5))
     if rich:
+        # a tree of the list bound to an attribute of ANOTHER tree of the list (copied later or earlier), or to a node of it
+        if len(tl) >= 2 and rng.random() < 0.5:
+            for k in range(rng.randint(1, 2)):
+                i, j = rng.sample(range(len(tl)), 2)
+                holder = rng.choice([tl[i], tl[i].seed_node])
+                owner, attr = rng.choice([(tl[j], "weight"), (tl[j], "label"), (tl[j].seed_node, "label"), (tl[j].seed_node.edge, "length")])
+                holder.annotations.add_bound_attribute(attr, annotation_name="xt%d_%s" % (k, attr), owner_instance=owner)
         if rng.random() < 0.5:
-            decorate_annotations(rng, tl, ["label"], foreign=(tl[0], "weight") if len(tl) else None)
+            decorate_annotations(rng, tl, ["label"], foreign=(rng.choice(list(tl)), "weight") if len(tl) else None)
         if rng.random() < 0.3:
             tl.comments.append("tl comment")
         if rng.random() < 0.2:
@@ -846,6 +867,8 @@ def mut_tree(dendropy, rng, t, deep, fresh):
             a.annotations.add_new("subadded%d" % fresh(), 1)
         elif a.is_attribute:
             owner, attr = a._value
+            if not deep and isinstance(owner, (dendropy.Taxon, dendropy.TaxonNamespace)):
+                return op + "-skip"          # the owner is a part the route documents as shared
             if attr in ("label", "weight", "length", "age", "length_type", "name"):
                 setattr(owner, attr, "bound%d" % fresh() if attr in ("label", "name") else 3.0 + fresh())
             else:
@@ -1469,6 +1492,13 @@ def run_case(ctx, dendropy, spec, pending=None, report=True):
         return counter[0]
     if fails:
         return fails
+    # bound annotations, judged directly before anything is mutated (every owner position: self, earlier, later, shared)
+    if not thin:
+        for p in bound_direct(dendropy, src, cp, ns_ids if rclass == "scoped" else set(), fresh, own_only=shallow):
+            fail("bound-annotation", p)
+        ctx.count("bound_direct_checked")
+        if fails:
+            return fails
     deep = rclass in ("deep", "migrate")
     nmut = spec.get("mutations", 24)
     sides = {"source": src, "copy": cp}
@@ -1502,36 +1532,92 @@ def run_case(ctx, dendropy, spec, pending=None, report=True):
             break
     ctx.count("mutations", len(applied))
     # bound annotations of the copy follow the copy's attributes: set every bound attribute of the copy to a fresh value
-    if not thin and not fails and not shallow:
-        for p in bound_follow(dendropy, src, cp, fresh):
-            fail("bound-annotation", p)
+    if not thin and not fails:
+        for p in bound_direct(dendropy, src, cp, ns_ids if rclass == "scoped" else set(), fresh, own_only=shallow):
+            fail("bound-annotation", p, stage="after-mutations")
     return fails
 
 
-def bound_follow(dendropy, src, cp, fresh):
+SETTABLE = ("label", "weight", "length", "age", "length_type", "name")
+
+
+def bound_direct(dendropy, src, cp, allowed, fresh, own_only=False):
+    """the independence clause judged directly on EVERY attribute-bound annotation reachable from the copy, whoever its owner is (the
+    holder itself, an object the traversal visits earlier or later, the tree, a taxon):
+      (1) its owner is not an object of the source, unless the route documents that object as shared (`allowed`: namespace + taxa);
+      (2) changing the attribute on the copy's owner changes the value of the copy's annotation and moves no bound annotation of the source;
+      (3) changing the attribute on a source owner moves no bound annotation of the copy.
+    Every attribute is restored afterwards.  own_only (shallow routes): only the container's own annotations whose owner is the
+    container (the members, and whatever else they own, are references by documentation)."""
     probs = []
-    g, _ = export(dendropy, [cp])
+
+    def is_bound(o):
+        d = getattr(o, "__dict__", None)
+        return type(o).__name__ == "Annotation" and isinstance(d, dict) and d.get("is_attribute") is True \
+            and isinstance(d.get("_value"), tuple) and len(d["_value"]) == 2
     gs, _ = export(dendropy, [src])
     src_ids = set(okey(o) for o in gs.keep)
-    anns = [o for o in g.keep if type(o).__name__ == "Annotation" and o.__dict__.get("is_attribute") is True and okey(o) not in src_ids]
-    src_anns = [o for o in gs.keep if type(o).__name__ == "Annotation" and o.__dict__.get("is_attribute") is True]
-    for a in anns[:60]:
+    if own_only:
+        own = lambda o, me: [a for a in (o._annotations._item_list if "_annotations" in o.__dict__ else [])
+                             if is_bound(a) and (a._value[0] is src or a._value[0] is cp)]
+        cp_anns, src_anns = own(cp, cp), own(src, src)
+    else:
+        g, _ = export(dendropy, [cp])
+        cp_anns = [o for o in g.keep if is_bound(o) and okey(o) not in src_ids]
+        src_anns = [o for o in gs.keep if is_bound(o)]
+
+    def val(a):
+        try:
+            return J(fp_value(a.value, {}))
+        except Exception as e:
+            return "raises:" + exc_name(e)
+    for a in cp_anns:
         owner, attr = a._value
-        if okey(owner) in src_ids:
-            continue   # shared owner (a taxon of a namespace-scoped copy) or reported already
-        if attr not in ("label", "weight", "length", "age", "length_type", "name"):
+        if okey(owner) in src_ids and okey(owner) not in allowed:
+            probs.append("the copy's bound annotation %r (attribute %r) is still bound to the SOURCE's %s: it does not follow the copy"
+                         % (a.name, attr, type(owner).__name__))
+    if probs:
+        return sorted(set(probs))[:4]
+
+    def fresh_value(attr):
+        return ("follow%d" % fresh()) if attr in ("label", "name") else 1000.0 + fresh()
+    for a in cp_anns[:80]:
+        owner, attr = a._value
+        if okey(owner) in allowed or attr not in SETTABLE:
             continue
-        before = [x.value for x in src_anns]
-        newv = ("follow%d" % fresh()) if attr in ("label", "name") else 1000.0 + fresh()
+        try:
+            old = getattr(owner, attr)
+        except Exception:
+            continue
+        before = [val(x) for x in src_anns]
+        newv = fresh_value(attr)
         try:
             setattr(owner, attr, newv)
         except Exception:
             continue
-        if a.value != newv:
-            probs.append("bound annotation %s of the copy does not follow the copy's attribute %s" % (a.name, attr))
-        if [x.value for x in src_anns] != before:
-            probs.append("setting attribute %s on the copy changed the value of a bound annotation of the source" % attr)
-    return probs
+        if val(a) != J(fp_value(newv, {})):
+            probs.append("bound annotation %r of the copy does not follow the copy's attribute %r" % (a.name, attr))
+        if [val(x) for x in src_anns] != before:
+            probs.append("setting attribute %r on the copy changed the value of a bound annotation of the source" % attr)
+        setattr(owner, attr, old)
+    for a in src_anns[:80]:
+        owner, attr = a._value
+        if okey(owner) in allowed or attr not in SETTABLE:
+            continue
+        try:
+            old = getattr(owner, attr)
+        except Exception:
+            continue
+        before = [val(x) for x in cp_anns]
+        try:
+            setattr(owner, attr, fresh_value(attr))
+        except Exception:
+            continue
+        if [val(x) for x in cp_anns] != before:
+            probs.append("setting attribute %r on the source (owner of its bound annotation %r) changed the value of a bound "
+                         "annotation of the copy" % (attr, a.name))
+        setattr(owner, attr, old)
+    return sorted(set(probs))[:4]
 
 
 def max_depth(tree):
@@ -1803,7 +1889,7 @@ def replay(ctx, rec):
             pass
         ctx.fail("clone-depth", "clone(%d) is not refused with TypeError" % spec["depth"], spec)
         return
-    for k in ("exception", "depth_class", "ops", "matrix_type"):
+    for k in ("exception", "depth_class", "ops", "matrix_type", "stage"):
         spec.pop(k, None)
     if spec.get("obj") == "caterpillar" and spec.get("depth_rule") == "limit//2":
         spec["depth"] = sys.getrecursionlimit() // 2
